@@ -36,6 +36,9 @@ type RNode struct {
 	Name  string  `json:"name"`
 	Pool  string  `json:"pool"` // value of the nodepool label on the Node; "" = no label
 	Conds []RCond `json:"conds"`
+	// the Node has a deletion timestamp but still exists (e.g. draining under the termination finalizer after an
+	// earlier repair / disruption)
+	Terminating bool `json:"terminating,omitempty"`
 }
 type RepairIn struct {
 	Policies       []RPolicy `json:"policies"`
@@ -198,6 +201,21 @@ func genRepair(r *rand.Rand, _ core.Tier) any {
 			in.Others = append(in.Others, RNode{Name: fmt.Sprintf("node-x%d", i), Pool: pick(r, []string{other, ""}), Conds: genConds(r, in.Policies, r.Float64() < pUn, base)})
 		}
 	}
+	// terminating Nodes (deletion timestamp set, still present): none in half of the clusters; otherwise some of
+	// the unhealthy Nodes (draining after an earlier repair) and some of the healthy ones (being consolidated),
+	// and now and then the reconciled Node itself
+	if r.Float64() < 0.5 {
+		pu := pick(r, []float64{0.3, 0.6, 1})
+		ph := pick(r, []float64{0, 0.1, 0.5})
+		for i := range in.Others {
+			if matchesPolicy(in.Policies, in.Others[i].Conds) {
+				in.Others[i].Terminating = r.Float64() < pu
+			} else {
+				in.Others[i].Terminating = r.Float64() < ph
+			}
+		}
+		in.Node.Terminating = r.Float64() < 0.15
+	}
 	r.Shuffle(len(in.Others), func(i, j int) { in.Others[i], in.Others[j] = in.Others[j], in.Others[i] })
 	if t, ok := minTermination(in.Policies, in.Node.Conds); ok {
 		if r.Float64() < 0.75 {
@@ -253,16 +271,36 @@ func enumRepair(_ core.Tier) []any {
 						if (f != ft{}) && !(n == 5 && u == 1) && !(n == 6 && u == 2) {
 							continue
 						}
-						in := RepairIn{Policies: pol, Node: RNode{Name: "node-target", Pool: claimPool, Conds: bad}, Claims: "one", ClaimPool: claimPool, Others: []RNode{},
-							Now: sec(1000) + sec(1800) + d, ClaimListFault: f.claimList, NodeListFault: f.nodeList, PatchFault: f.patch, DeleteFault: f.del}
-						for i := 0; i < n-1; i++ {
-							c := good
-							if i < u-1 {
-								c = bad
+						// which Nodes are terminating (deletion timestamp set, still present): none; one / all of the
+						// other unhealthy ones (draining after an earlier repair); all other unhealthy ones and the
+						// reconciled Node; one healthy Node
+						for _, term := range []string{"none", "one-unhealthy", "all-unhealthy", "all-unhealthy+target", "one-healthy"} {
+							if term != "none" && (f != ft{} || d == 1) {
+								continue
 							}
-							in.Others = append(in.Others, RNode{Name: fmt.Sprintf("node-%02d", i), Pool: claimPool, Conds: c})
+							if (term == "one-unhealthy" || term == "all-unhealthy" || term == "all-unhealthy+target") && u < 2 {
+								continue
+							}
+							if term == "one-unhealthy" && u == 2 {
+								continue // same as all-unhealthy
+							}
+							if term == "one-healthy" && n == u {
+								continue
+							}
+							in := RepairIn{Policies: pol, Node: RNode{Name: "node-target", Pool: claimPool, Conds: bad, Terminating: term == "all-unhealthy+target"}, Claims: "one", ClaimPool: claimPool, Others: []RNode{},
+								Now: sec(1000) + sec(1800) + d, ClaimListFault: f.claimList, NodeListFault: f.nodeList, PatchFault: f.patch, DeleteFault: f.del}
+							for i := 0; i < n-1; i++ {
+								o := RNode{Name: fmt.Sprintf("node-%02d", i), Pool: claimPool, Conds: good}
+								if i < u-1 {
+									o.Conds = bad
+									o.Terminating = term == "all-unhealthy" || term == "all-unhealthy+target" || (term == "one-unhealthy" && i == 0)
+								} else if i == u-1 {
+									o.Terminating = term == "one-healthy"
+								}
+								in.Others = append(in.Others, o)
+							}
+							out = append(out, in)
 						}
-						out = append(out, in)
 					}
 				}
 			}
@@ -287,6 +325,10 @@ func implRepair(raw json.RawMessage) (any, error) {
 		}
 		for _, c := range n.Conds {
 			node.Status.Conditions = append(node.Status.Conditions, corev1.NodeCondition{Type: corev1.NodeConditionType(c.Type), Status: corev1.ConditionStatus(c.Status), LastTransitionTime: mt(c.Since)})
+		}
+		if n.Terminating {
+			// deleted in the setup below: the finalizer keeps the object, with a deletion timestamp
+			node.Finalizers = []string{v1.TerminationFinalizer}
 		}
 		return node
 	}
@@ -361,6 +403,17 @@ func implRepair(raw json.RawMessage) (any, error) {
 			}
 		}
 	}
+	for _, n := range append([]RNode{in.Node}, in.Others...) {
+		if n.Terminating {
+			if err := c.Delete(ctx, &corev1.Node{ObjectMeta: metav1.ObjectMeta{Name: n.Name}}); err != nil {
+				return nil, fmt.Errorf("setup: %w", err)
+			}
+			chk := &corev1.Node{}
+			if err := c.Get(ctx, client.ObjectKey{Name: n.Name}, chk); err != nil || chk.DeletionTimestamp.IsZero() {
+				return nil, fmt.Errorf("setup: node %s is not terminating (%v)", n.Name, err)
+			}
+		}
+	}
 	got := &corev1.Node{}
 	if err := c.Get(ctx, client.ObjectKeyFromObject(target), got); err != nil {
 		return nil, fmt.Errorf("setup: %w", err)
@@ -402,17 +455,42 @@ func repairLabels(raw json.RawMessage, impl any) []string {
 		l = append(l, "target:healthy")
 	}
 	// the population and its unhealthy count
-	n, u := 0, 0
+	n, u, ut, ht := 0, 0, 0, 0
 	all := append([]RNode{in.Node}, in.Others...)
 	for _, x := range all {
 		if in.ClaimPool == "" || x.Pool == in.ClaimPool {
 			n++
 			if matchesPolicy(in.Policies, x.Conds) {
 				u++
+				if x.Terminating {
+					ut++
+				}
+			} else if x.Terminating {
+				ht++
 			}
 		}
 	}
 	thr := (n*20 + 99) / 100
+	if in.Node.Terminating {
+		l = append(l, "target:terminating")
+	}
+	if ut > 0 {
+		l = append(l, "population:unhealthy-terminating")
+	}
+	if ht > 0 {
+		l = append(l, "population:healthy-terminating")
+	}
+	if ut+ht == 0 {
+		l = append(l, "population:none-terminating")
+	}
+	if u > thr && u-ut <= thr {
+		// the breaker is open only if the terminating unhealthy Nodes are counted
+		l = append(l, "breaker:open-only-with-terminating")
+	}
+	if u <= thr && ht > 0 && u > ((n-ht)*20+99)/100 {
+		// the breaker is closed only if the terminating healthy Nodes stay in the total
+		l = append(l, "breaker:closed-only-with-terminating")
+	}
 	switch {
 	case u == thr:
 		l = append(l, "breaker:at-threshold")
